@@ -486,3 +486,36 @@ PROPS["C04"] = {
          "tv_timeout": 3000, "timeout": 7200},
     ],
 }
+
+
+# ============================================================================================
+# Extensions of the specification beyond the 18 listed properties (bin/check X..; not in MANIFEST.json)
+EXTRA = {}
+API_CONSTS = dict(ENTRY, OpenCounts="TRUE", SyncSticky="TRUE", GateSync="TRUE", GateOpen="TRUE")
+EXTRA["X01"] = {
+    "level": "model_checking",
+    "rule": "client API and engine composition (src/api.rs, src/api/actor.rs, src/engine.rs DefaultAuthor, live.rs start_sync / "
+            "leave): model = all histories (<= 7 calls) of 16 call shapes over 2 documents and 2 authors with restarts and the "
+            "store's own commits; implementation = seeded histories (8-25 calls) on a real node (memory and persistent), graceful "
+            "restarts on the same directory and crash images (directory copied without shutdown, second node started on the copy)",
+    "assumptions": ["the trace specification runs with SetDefaultFlushes = FALSE, which is what DefaultAuthor::set does (it does not "
+                    "commit the store before writing the default-author file); the design value TRUE is what the model's "
+                    "NoDanglingDefault invariant needs - see DESIGN.md 12.6",
+                    "a well-behaved client (BalancedCloses) in the model; traces follow whatever the driver did, including repeated closes"],
+    "models": [
+        {"name": "api", "module": "MCApi", "workers": 6,
+         "consts": dict(API_CONSTS, SetDefaultFlushes="TRUE", BalancedCloses="TRUE", Docs="{1, 2}", AuthorIds="{1, 2}",
+                        EntryU="<- UApi", MaxCalls=6),
+         "invariants": ["InvDefaultExists", "InvLiveHoldsHandle", "InvNoDanglingDefault", "InvMineUsable", "InvOpenExists"]},
+        {"name": "api-deep", "module": "MCApi", "workers": 12, "tiers": ("thorough",), "timeout": 3000,
+         "consts": dict(API_CONSTS, SetDefaultFlushes="TRUE", BalancedCloses="TRUE", Docs="{1, 2}", AuthorIds="{1, 2, 3}",
+                        EntryU="<- UApi", MaxCalls=8),
+         "invariants": ["InvDefaultExists", "InvLiveHoldsHandle", "InvNoDanglingDefault", "InvMineUsable", "InvOpenExists"]},
+    ],
+    "sensitivity": [{"base": "api", "flip": {"SetDefaultFlushes": "FALSE"}},
+                    {"base": "api", "flip": {"BalancedCloses": "FALSE"}}],
+    "drives": [
+        {"name": "api", "cmd": "api", "args": {"n": {"quick": 60, "thorough": 3000}},
+         "trace_module": "ApiTrace", "trace_consts": dict(API_CONSTS, SetDefaultFlushes="FALSE"), "tv_timeout": 3000},
+    ],
+}
